@@ -214,6 +214,9 @@ func check(raw json.RawMessage, c *ucase) {
 	case "crossfamily":
 		crossFamily(raw, c)
 		return
+	case "twocolumn":
+		twoColumn(raw, c)
+		return
 	case "unknown":
 		v, _ := value(k.Cls, unit{}, unit{})
 		got, u := measurement.Scale(v, k.Spelling, k.ToSpelling)
@@ -322,6 +325,61 @@ func crossFamily(raw json.RawMessage, c *ucase) {
 			ps[0].Sample[0].Value[0], ps[0].SampleType[0].Unit, ps[1].Sample[0].Value[0], ps[1].SampleType[0].Unit), raw, nil)
 	} else if ps[0].Sample[0].Value[0] != 5000 || ps[1].Sample[0].Value[0] != 7 || ps[0].SampleType[0].Unit != spellOut(ua) || ps[1].SampleType[0].Unit != spellOut(ub) {
 		run.Violate("harmonise", "cross-family-touched", "ScaleProfiles failed but changed a profile", raw, nil)
+	}
+}
+
+// two sample types: both columns of the first profile and the first column of the second use unit a, the second
+// column of the second profile unit b; each COLUMN is harmonised on its own and keeps its physical totals
+func twoColumn(raw json.RawMessage, c *ucase) {
+	k := c.Case
+	ua, ub := c.Units[k.From-1], c.Units[k.To-1]
+	spellOut := func(u unit) string { return u.Aliases[len(u.Aliases)-1] }
+	run.Count("twocolumn|" + ua.Name + "|" + ub.Name)
+	mk := func(u1, u2 unit, v1, v2 int64) *profile.Profile {
+		return &profile.Profile{SampleType: []*profile.ValueType{{Type: "cpu", Unit: spellOut(u1)}, {Type: "wall", Unit: spellOut(u2)}},
+			PeriodType: &profile.ValueType{Type: "cpu", Unit: spellOut(u1)}, Period: 1, Sample: []*profile.Sample{{Value: []int64{v1, v2}}}}
+	}
+	for _, order := range []int{0, 1} {
+		ps := []*profile.Profile{mk(ua, ua, 7, 11), mk(ua, ub, 5, 3)}
+		units := [][]unit{{ua, ua}, {ua, ub}}
+		if order == 1 {
+			ps[0], ps[1] = ps[1], ps[0]
+			units[0], units[1] = units[1], units[0]
+		}
+		want := [][]*big.Rat{}
+		for i, p := range ps {
+			row := []*big.Rat{}
+			for j, v := range p.Sample[0].Value {
+				row = append(row, new(big.Rat).Mul(big.NewRat(v, 1), factor(units[i][j])))
+			}
+			want = append(want, row)
+		}
+		if err := measurement.ScaleProfiles(ps); err != nil {
+			run.Violate("harmonise", "twocolumn-error", err.Error(), raw, nil)
+			return
+		}
+		for i, p := range ps {
+			for j, v := range p.Sample[0].Value {
+				// the unit the column is labelled with now, looked up among the family's spellings (exact factors)
+				var now *unit
+				for ui := range c.Units {
+					u := &c.Units[ui]
+					for _, al := range append([]string{u.Name}, u.Aliases...) {
+						if strings.EqualFold(strings.Replace(al, "{mu}", "μ", 1), p.SampleType[j].Unit) && u.Fam == ua.Fam {
+							now = u
+						}
+					}
+				}
+				if now == nil {
+					run.Violate("harmonise", "twocolumn-unknown-unit", fmt.Sprintf("column %d is now labelled %q", j, p.SampleType[j].Unit), raw, nil)
+					continue
+				}
+				got := new(big.Rat).Mul(big.NewRat(v, 1), factor(*now))
+				if got.Cmp(want[i][j]) != 0 {
+					run.Violate("harmonise", "twocolumn-totals", fmt.Sprintf("order %d: profile %d column %d (%s): physical value %s became %s (now %d %s)", order, i, j, spellOut(units[i][j]), want[i][j].FloatString(3), got.FloatString(3), v, p.SampleType[j].Unit), raw, nil)
+				}
+			}
+		}
 	}
 }
 
